@@ -60,11 +60,13 @@ def menu(v, seed):
             for name in ('split', 'rsplit'):
                 m.append((name, [p], {}))
                 m.append((name, [p, 1], {}))
+                m.append((name, [p, -2], {}))
             m.append(('partition', [p], {}))
             m.append(('rpartition', [p], {}))
         for new in ('', 'z', ['S', 'z', R['G']], ['T', 'zy', R['G']]):
             m.append(('replace', [p, new], {}))
             m.append(('replace', [p, new, 1], {}))
+            m.append(('replace', [p, new, -2], {}))
     m.append(('__contains__', [['S', 'a', R['R']]], {}))
     m.append(('__contains__', [5], {}))
     for name in ('split', 'rsplit'):
@@ -109,7 +111,7 @@ def menu(v, seed):
     m.append(('apply_formatting', [1.5], {}))
     for pat, rx in (('a', False), ('A', False), ('a|b', True), ('.', False), ('b*', True)):
         for mc_ in (True, False):
-            for cnt in (-1, 1):
+            for cnt in (-1, 1, -2):
                 m.append(('format_matching', [pat, ['SET', [R['G']]]], {'regex': rx, 'match_case': mc_, 'count': cnt}))
                 m.append(('unformat_matching', [pat], {'regex': rx, 'match_case': mc_, 'count': cnt}))
                 m.append(('unformat_matching', [pat, ['SET', [R['R']]]], {'regex': rx, 'match_case': mc_, 'count': cnt}))
@@ -150,10 +152,14 @@ def materialise(arg, receiver, text):
     return arg
 
 
-def do_call(obj, name, args, kwargs, is_str):
+def do_call(obj, name, args, kwargs, is_str, sink=None):
     """Perform the call the way each class spells it; returns the result value."""
     text = obj.base_str
     a = [materialise(x, obj, text) for x in args]
+    if sink is not None:
+        for x in a:
+            if isinstance(x, (AnsiString, AnsiStr)) and x is not obj:
+                sink.append((x, model.alpha_codes(x), model.canon(x)))
     if name == 'base_str':
         return obj.base_str
     if name == '__iter__':
@@ -250,13 +256,26 @@ def check_call(h, name, args, kwargs):
         return [], None
     except Exception as e:  # noqa
         e1 = e
+    sink = []
     try:
-        r2 = do_call(v2, name, args, kwargs, True)
+        r2 = do_call(v2, name, args, kwargs, True, sink)
     except LookupError:
         return [], None
     except Exception as e:  # noqa
         e2 = e
     bad = []
+    for (x, al, cn) in sink:
+        # an operand handed to an AnsiStr method is still what it was, and (if an AnsiStr) still renders as its payload
+        try:
+            now = (model.alpha_codes(x), model.canon(x))
+        except Exception as ex:  # noqa
+            now = ('unreadable: %s: %s' % (type(ex).__name__, ex), None)
+        if now != (al, cn):
+            bad.append(('twin-argument-changed', '%s changed its %s argument: %r -> %r' % (what, type(x).__name__, al, now[0])))
+        elif isinstance(x, AnsiStr):
+            e = payload_ok(x)
+            if e:
+                bad.append(('payload', '%s: argument afterwards: %s' % (what, e)))
     if e1 is not None or e2 is not None:
         if type(e1) is not type(e2):
             bad.append(('twin-exception', '%s: AnsiString %s, AnsiStr %s' % (what, 'raised %s(%s)' % (type(e1).__name__, e1) if e1 else 'returned',
